@@ -37,21 +37,24 @@ def gen_graph(
     n_hi: int = 7,
     acyclic: bool = True,
     names: list[str] | None = None,
+    pb_choices: tuple = (0.1, 0.3),
+    pd_choices: tuple = (0.15, 0.3, 0.5),
+    p_iso: float = 0.15,
 ) -> dict[str, Any]:
     """Draw an abstract mixed graph."""
     n = rng.randint(n_lo, n_hi)
     names = list(names) if names is not None else gen_names(rng, n)
     names = names[:n] if len(names) >= n else names + gen_names(rng, n - len(names))
-    pd = rng.choice((0.15, 0.3, 0.5))
-    pb = rng.choice((0.1, 0.3))
+    pd = rng.choice(pd_choices)
+    pb = rng.choice(pb_choices)
     order = list(names)
     rng.shuffle(order)
     D: list[list[str]] = []
     B: list[list[str]] = []
     # deliberately isolated nodes: they take part in no edge at all
-    iso = [x for x in names if rng.random() < 0.15]
+    iso = [x for x in names if rng.random() < p_iso]
     # nodes touched only by bidirected edges
-    bionly = [x for x in names if x not in iso and rng.random() < 0.15]
+    bionly = [x for x in names if x not in iso and rng.random() < p_iso]
     for i, u in enumerate(order):
         for j, v in enumerate(order):
             if i == j or u in iso or v in iso:
@@ -139,6 +142,19 @@ def gen_history(rng: random.Random, g: dict[str, Any]) -> dict[str, Any]:
         h["directed"] = [[k, dadj[k]] for k in dk]
         h["undirected"] = [[k, uadj[k]] for k in uk]
     return h
+
+
+def history_dups(h: dict[str, Any]) -> int:
+    """Number of repeated insertions in a history (each is one 'dup' fault)."""
+    if h["ctor"] == "incremental":
+        items = [tuple(s) if s[0] != "b" else ("b", *sorted(s[1:])) for s in h["steps"]]
+    elif h["ctor"] in ("from_edges", "from_str_edges"):
+        items = [("n", x) for x in h["nodes"]] + [("d", *e) for e in h["directed"]] + [
+            ("b", *sorted(e)) for e in h["undirected"]]
+    else:
+        items = [("n", x) for x in h["nodes"]] + [("d", k, v) for k, vs in h["directed"] for v in vs] + [
+            ("b", *sorted((k, v))) for k, vs in h["undirected"] for v in vs]
+    return len(items) - len(set(items))
 
 
 def canonical_history(g: dict[str, Any]) -> dict[str, Any]:
